@@ -528,8 +528,47 @@ def check(run, repo, world):
         return st
     IN = forward(cfg, tr, must=True, edge_transfer=edge)
     st = IN.get(anode.id, frozenset())
+    # the assembly is reached for every pair of clean answers: the only
+    # tests on the way are type tests of the answers and of their values
+    # (a test of a byte's numeric value refuses colour values that exist)
+    from ..pathcond import path_conds
+
+    def ptree(t_):
+        return ("atom", ("p", unparse(t_, 200), True))
+    extra = set()
+    for cj in path_conds(cfg, anode, ptree, what="R-DT8-NONE"):
+        for a_ in cj:
+            if a_[0] == "p" and not a_[1].startswith("isinstance(") and (
+                    msb in a_[1] or lsb in a_[1]):
+                extra.add(a_[1])
+    run.ob("R-DT8-NONE", F + "#every-clean-pair-assembled", not extra,
+           "besides the type tests the result also depends on `%s`: some "
+           "pairs of clean answer bytes give None although they are a "
+           "colour value" % "`, `".join(sorted(extra)), where(mod, anode))
+    # `.value` is only there on a response object: a runner may hand the
+    # sequence None (or a marker) for an unanswered query, and a handler for
+    # TypeError does not catch the AttributeError that follows
+    catches_attr = False
+    for t_ in ast.walk(fn):
+        if isinstance(t_, ast.Try) and any(
+                anode.ast is x_ for b_ in t_.body for x_ in ast.walk(b_)):
+            for h_ in t_.handlers:
+                names_ = ["<bare>"] if h_.type is None else [
+                    unparse(e_) for e_ in (h_.type.elts if isinstance(
+                        h_.type, ast.Tuple) else [h_.type])]
+                if set(names_) & {"AttributeError", "Exception",
+                                  "BaseException", "<bare>"}:
+                    catches_attr = True
     for (M, role, via) in ops:
         if via == "value":
+            is_obj = any(f[0] == "isinst" and f[1] == M for f in st)
+            run.ob("R-DT8-NONE", "%s#%s-is-a-response" % (F, role),
+                   is_obj or catches_attr,
+                   "%s.value is read without an isinstance(%s, <response "
+                   "class>) guard (and no handler for AttributeError): when "
+                   "the query went unanswered and the runner sends None the "
+                   "sequence raises instead of returning None" % (M, M),
+                   where(mod, anode))
             ok = ("isinst", M + ".value", "int") in st or in_try_te
             why = "%s.value is assembled without an isinstance(%s.value, " \
                   "int) guard or a TypeError handler: a missing or garbled " \
